@@ -518,7 +518,13 @@ func (l *List) CanContain(objType ObjectType) bool {
 func (l *List) Add(obj Object) Object {
 	if obj.Type() == ObjectTypeList {
 		list := obj.(*List)
-		l.Value = append(l.Value, list.Value...)
+
+		// an element removed earlier in the same expression leaves a nil slot until the list is compacted
+		for _, elem := range list.Value {
+			if elem != nil {
+				l.Value = append(l.Value, elem)
+			}
+		}
 
 		return UNDEFINED
 	}
